@@ -140,7 +140,7 @@ fn reference_group_definition(h: &H, r: &mut Rng) -> Option<H> {
 
 // The clamped recursive functions the generator plants inside types (`trec…`): a perturbation
 // inside one of them makes the *checker* diverge, which tells nothing and costs a watchdog period.
-fn type_level_recursions(h: &H) -> Vec<H> {
+pub fn type_level_recursions(h: &H) -> Vec<H> {
     let mut v = vec![];
     crate::props::c08::walk(h, &mut |x| {
         if let H::Let(n, _, d, _) = x {
@@ -150,6 +150,16 @@ fn type_level_recursions(h: &H) -> Vec<H> {
         }
     });
     v
+}
+
+// A perturbation or (two times in five) a scope-aware edit, see edit.rs.
+pub fn perturb_or_edit(h: &H, r: &mut Rng) -> Option<(H, &'static str)> {
+    if r.chance(2, 5) {
+        if let Some(x) = crate::edit::edits(h, r) {
+            return Some(x);
+        }
+    }
+    perturb(h, r)
 }
 
 pub fn perturb(h: &H, r: &mut Rng) -> Option<(H, &'static str)> {
